@@ -98,7 +98,8 @@ pub fn step(ctx: &Ctx, w: &World, ev: &mut Ev) {
             if dcum != premium {
                 ev.violation("premium_exact", sign(premium), json!({"cumulative_delta": dcum.to_string(), "expected": premium.to_string(), "vamm_twap": tw.to_string(), "oracle_twap": ut.to_string(), "period": a.funding_period}));
             }
-            if b.next_funding < ctx.post.time + a.funding_period / 2 {
+            // "at least half a funding period later", on the contracts' whole-second clock: 2 x (next - now) >= period
+            if b.next_funding < ctx.post.time || 2 * (b.next_funding - ctx.post.time) < a.funding_period {
                 ev.violation("next_time", timing, json!({"next_funding_time": b.next_funding, "now": ctx.post.time, "period": a.funding_period}));
             }
             let to_if = ctx.sent(&engine, &ifund);
